@@ -5,7 +5,7 @@
    stepping; the other operations by the correspondence run (per-identity ledger on both sides). *)
 From Coq Require Import ZArith List Bool Lia.
 From MV Require Import Ast Eval Scalar Machine Model Policy.
-From MV.Proofs Require Import Arith Logic Prim View OpsLocal Guards Grow Drops DrainIt CapHistory Core Refine Life IntoIt.
+From MV.Proofs Require Import Arith Logic Prim View OpsLocal Guards Grow Drops DrainIt CapHistory Core Refine Life IntoIt Clone Append.
 Import ListNotations.
 Open Scope Z_scope.
 
@@ -181,3 +181,19 @@ Theorem C02_into_iter_drop_any_point :
   post (into_drop cfg it s) (fun _ s' => Q s') Q.
 Proof. exact into_drop_spec. Qed.
 Print Assumptions C02_into_iter_drop_any_point.
+
+(* append(&mut self, other): from EVERY pair of storage states (each of the two never allocated,
+   empty, full, with spare capacity ...): self holds its elements followed by other's, in order; other
+   is empty; no element is created, destroyed or duplicated (the ledger is untouched); a refused
+   reservation (capacity overflow) leaves both vectors exactly as they were *)
+Theorem C02_append_is_list_concatenation :
+  forall cfg ncap, cfg_ok cfg -> policy_ok ncap ->
+  forall s v o lv lo,
+  vabs cfg s v lv -> vabs cfg s o lo -> v <> o ->
+  (forall bv blv bo blo, vec_at s v bv blv -> vec_at s o bo blo -> bv <> bo) ->
+  NoDup (lv ++ lo) ->
+  post (append cfg ncap v o s)
+    (fun _ s' => vabs cfg s' v (lv ++ lo) /\ vabs cfg s' o [] /\ only_changes s s' [])
+    (fun s' => s' = s).
+Proof. exact append_abs. Qed.
+Print Assumptions C02_append_is_list_concatenation.
